@@ -141,7 +141,7 @@ fn ctok_bytes(t: CTok) -> Vec<u8> {
         CTok::CancelPush => rf::varint_frame(rf::T_CANCEL_PUSH, 1),
         CTok::Goaway(id) => rf::varint_frame(rf::T_GOAWAY, id),
         CTok::H2Reserved => rf::frame(0x8, &[0, 0, 0, 1]),
-        CTok::Unknown => rf::frame(0x0f, b"unknown"),
+        CTok::Unknown => rf::frame(rf::unknown_type(2), b"unknown"),
         CTok::Grease => rf::frame(0x21 + 0x1f * 5, b"grease"),
     }
 }
@@ -762,6 +762,8 @@ fn gen_stream(rng: &mut Rng) -> UStream {
 
 fn run_case(gen: &str, index: u64, seed: u64, _tier: Tier, rep: &mut Report) {
     let mut rng = Rng::new(seed);
+    // which unassigned frame types stand for "unknown" in this case
+    rf::set_unknown_salt(seed);
     let plain = Mode { credit: CreditMode::Unlimited, backpressure: false, stall_grease_stream: false, grease: true };
     match gen {
         "single_control_sequences" => {
